@@ -34,7 +34,7 @@ def _parse(path):
     try:
         return ctx.parse(FileSourceDescriptor(path, path), ModuleScope("m", None, ctx), pxd=0, full_module_name="m")
     except Exception as e:  # CompileError etc.
-        raise AnalysisError(f"{path}: Cython parser failed: {e}") from e
+        raise AnalysisError(f"{path}: Cython parser failed: {type(e).__name__} {e!r}") from e
 
 
 class PyxFunc:
